@@ -206,7 +206,27 @@ func genScenario(r *hx.Rng, name string, thorough bool, search bool) scenario {
 				}
 			}
 		}
-		if len(cands) > 0 && r.Chance(3, 4) {
+		// … or at a strictly HEAVIER fork (by one) over a target several blocks above the fork point, so that
+		// multi-block reorgs (and deaths inside their removals) are common
+		var heavier []int
+		for t := 1; t < len(nodes); t++ {
+			if isDesc(t, p) {
+				need := nodes[t].qnsum - par.qnsum + 1
+				if need >= 1 && need <= 3 {
+					heavier = append(heavier, t)
+				}
+			}
+		}
+		if len(heavier) > 0 && r.Chance(1, 3) {
+			t := heavier[r.Intn(len(heavier))]
+			for _, x := range heavier {
+				if nodes[x].depth > nodes[t].depth && r.Bool() {
+					t = x
+				}
+			}
+			qn = nodes[t].qnsum - par.qnsum + 1
+			eqTarget[i] = t
+		} else if len(cands) > 0 && r.Chance(3, 4) {
 			t := cands[r.Intn(len(cands))]
 			if r.Chance(1, 2) { // prefer a target well above the fork point
 				for _, x := range cands {
@@ -373,7 +393,7 @@ func genScenario(r *hx.Rng, name string, thorough bool, search bool) scenario {
 		sc.lines = append(sc.lines, "par "+strings.Join(ls, ","))
 	}
 	// second pass: re-deliver everything (blocks rejected earlier may now win or be duplicates)
-	if r.Chance(1, 2) || shape == 6 {
+	if r.Chance(1, 4) || shape == 6 {
 		for _, b := range order {
 			if r.Chance(1, 2) {
 				emit(b)
@@ -695,6 +715,34 @@ func (c *child) guarded(armed bool, k, sub int, f func() string) (res string, to
 		res = "crash"
 	}
 	return
+}
+
+// shape of one delivery as seen in its write tokens: how many blocks a reorg removed, how many were inserted
+// (cascade of parked orphans), and — for a death — the class of the write it struck in front of
+func (c *child) shape(tokens []string, fired bool) {
+	rm, am := 0, 0
+	for _, t := range tokens {
+		if t == "rm" {
+			rm++
+		}
+		if t == "am" {
+			am++
+		}
+	}
+	if rm > 3 {
+		rm = 3
+	}
+	if am > 3 {
+		am = 3
+	}
+	c.faultStats[fmt.Sprintf("shape:removed=%d,inserted=%d", rm, am)]++
+	if fired {
+		last := "first-write"
+		if len(tokens) > 0 {
+			last = strings.SplitN(tokens[len(tokens)-1], ":", 2)[0]
+		}
+		c.faultStats["death-after:"+last]++
+	}
 }
 
 func wstr(tokens []string) string {
@@ -1121,6 +1169,9 @@ func (c *child) run(sc scenario) {
 			continue // nothing can run between death and restart
 		}
 		switch f[0] {
+		case "nomonitor":
+			// a tree that violates a ValidTree hypothesis on purpose (documented quirk): correspondence only
+			c.monitor = false
 		case "cfg":
 			if f[1] == "p008" && f[2] == "0" {
 				common.LocalChainConfig.Proposal008Block = 1 << 62
@@ -1347,6 +1398,7 @@ func (c *child) run(sc scenario) {
 			if argAfter, err := types.MarshalBlockHeader(cp.Header); err != nil || !bytes.Equal(argBefore, argAfter) {
 				c.violation("argument-mutated", "add "+f[1]+": AddBlockOnChain changed the header of the block it was given")
 			}
+			c.shape(toks, fired)
 			if fired {
 				inState := 0
 				if sub > 0 && len(toks) > 0 && toks[len(toks)-1] == "st" {
@@ -1391,6 +1443,11 @@ func (c *child) run(sc scenario) {
 				return "ok"
 			})
 			if fired {
+				last := "first-write"
+				if len(toks) > 0 {
+					last = strings.SplitN(toks[len(toks)-1], ":", 2)[0]
+				}
+				c.faultStats["repair-death-after:"+last]++
 				c.emit(fmt.Sprintf("restartc %d 0", len(toks)), res+" "+wstr(toks))
 				c.dead = true
 				continue
@@ -1407,64 +1464,6 @@ func (c *child) run(sc scenario) {
 			c.crashHeadCheck("restart", old, lastCrashBlock, core.VerifC05Head().Hash)
 			lastCrashBlock = nil
 		}
-	}
-}
-
-// direct correspondence streams of two pure functions on the property's path (verif hook H4c-c05)
-func (c *child) runPure(n int) {
-	hxnode.BootServices("dev")
-	common.LocalChainConfig.Proposal026Block = 1 << 62
-	if err := bootChain(); err != nil {
-		panic(err)
-	}
-	r := hx.NewRng(hx.SeedFromEnv() ^ 0x5eed)
-	hash := func() []byte {
-		b := r.Bytes(32)
-		switch r.Intn(6) {
-		case 0: // leading zero bytes
-			for i := 0; i < 1+r.Intn(4); i++ {
-				b[i] = 0
-			}
-		case 1:
-			b = make([]byte, 32)
-			b[31] = byte(r.Intn(3))
-		}
-		return b
-	}
-	for i := 0; i < n; i++ {
-		pa, pb := int64(r.Pick(0, 1, 2, 500, 1<<40)), int64(r.Pick(0, 1, 2, 500, 1<<40))
-		if r.Chance(1, 3) {
-			pa, pb = int64(r.Intn(1000)), int64(r.Intn(1000))
-		}
-		ha, hb := hash(), hash()
-		if r.Chance(1, 8) {
-			hb = append([]byte{}, ha...)
-		}
-		if r.Chance(1, 3) {
-			pb = pa // prove values tie: the hash decides
-		}
-		x := &types.BlockHeader{ProveValue: big.NewInt(pa), Hash: common.BytesToHash(ha)}
-		y := &types.BlockHeader{ProveValue: big.NewInt(pb), Hash: common.BytesToHash(hb)}
-		c.out.Do(fmt.Sprintf("pv %d %s %d %s", pa, hx.Hex(ha), pb, hx.Hex(hb)), func() string {
-			return strconv.FormatBool(core.VerifC05ChainPvGreatThanRemote(x, y))
-		})
-	}
-	for i := 0; i < n; i++ {
-		last := uint64(r.Pick(0, 0, 1, 5, 9, 1<<40))
-		var txs []*types.Transaction
-		var rs []string
-		for j := r.Intn(6); j > 0; j-- {
-			q := uint64(r.Pick(0, 0, 1, 4, 5, 6, 9, 10, 1<<40, 1<<40+1))
-			txs = append(txs, &types.Transaction{RequestId: q})
-			rs = append(rs, strconv.FormatUint(q, 10))
-		}
-		lm := map[string]uint64{}
-		if last != 0 || r.Bool() {
-			lm["fixed"] = last
-		}
-		c.out.Do(fmt.Sprintf("rid %d %s", last, joinOrDash(rs)), func() string {
-			return strconv.FormatUint(core.VerifC05RequestIds(txs, lm)["fixed"], 10)
-		})
 	}
 }
 
@@ -1712,7 +1711,7 @@ func main() {
 	if len(viol) > 40 {
 		viol = viol[:40]
 	}
-	st := map[string]interface{}{"ops": total, "scenarios": len(scs), "kinds": kinds, "results": res, "violations": viol, "child_failures": nfail, "mode": mode, "fault_outcomes": faultStats}
+	st := map[string]interface{}{"ops": total, "scenarios": len(scs), "kinds": kinds, "results": res, "violations": viol, "child_failures": nfail, "mode": mode, "shapes_and_faults": faultStats}
 	j, _ := json.Marshal(st)
 	fmt.Println("STATS " + string(j))
 }
